@@ -139,7 +139,7 @@ pub fn profile(check: &str) -> Profile {
         "C06" => Profile {
             owner: "C06",
             own: vec!["C06:"],
-            w: [30, 2, 6, 5, 4, 8, 4, 2, 1, 1, 4, 0, 0, 0, 3, 3, 1, 0, 0, 3],
+            w: [30, 2, 8, 5, 4, 8, 4, 6, 4, 1, 4, 0, 0, 0, 3, 3, 4, 0, 0, 3],
             nontrivial_any: vec!["purge", "send_after_restart", "balanced_send"],
             required: vec![],
             key_rate: (1, 4),
@@ -494,6 +494,12 @@ fn owned(prof: &Profile, v: &Violation, w: &World) -> bool {
     // after a restart, a poll that no longer returns its slice counts for C03 too (the load-time reconciliation repairs such damage
     // at the following restart, so the restart scan alone no longer sees it)
     if prof.owner == "C03" && w.restarts > 0 && !w.cfg.no_wait && w.ev.contains_key("send_after_restart") && key.starts_with("C02:slice") {
+        return true;
+    }
+    // C06: "deleting an entity removes everything nested in it - ... stored consumer offsets ... - and never disturbs a sibling":
+    // once a consumer group was deleted in the history, offsets that survive it, reappear in a group created under the same id,
+    // or vanish from another identity count for C06 too
+    if prof.owner == "C06" && !w.cfg.no_wait && w.ev.contains_key("group_deleted") && key.starts_with("C07:get-equals-last-stored") {
         return true;
     }
     // C18: a dropped duplicate is "dropped without consuming an offset": with deduplication on, offset-assignment clauses count for it
